@@ -41,6 +41,10 @@ impl View for Value<'_> {
     }
 }
 
+pub open spec fn cache_view(c: Seq<Option<Value<'_>>>) -> Seq<Option<V>> {
+    Seq::new(c.len(), |i: int| optv(c[i]))
+}
+
 pub open spec fn optv(o: Option<Value<'_>>) -> Option<V> {
     match o { Some(v) => Some(v@), None => None }
 }
